@@ -111,6 +111,7 @@ func runC09(run *Run, replay string) {
 			}
 		}
 		walk(nil, ts)
+		blockAddrCases(run, sc, 8)
 		// ---- ground truth
 		if cfg != nil {
 			top := map[string][]reference.Target{}
@@ -169,6 +170,7 @@ func runC10(run *Run, replay string) {
 	if run.Thorough {
 		n = 4000
 	}
+	originCases(run, rand.New(rand.NewSource(subSeed(run.Res.Seed, 424242))), n)
 	for i := 0; i < n; i++ {
 		r := rand.New(rand.NewSource(subSeed(run.Res.Seed, i)))
 		sc, cfg := tfScenario(r)
@@ -241,6 +243,7 @@ func runC08(run *Run, replay string) {
 		n = 1200
 	}
 	ctx := context.Background()
+	matchWalkCases(run, rand.New(rand.NewSource(subSeed(run.Res.Seed, 515151))), n*6)
 	for i := 0; i < n; i++ {
 		r := rand.New(rand.NewSource(subSeed(run.Res.Seed, i)))
 		sc, cfg := tfScenario(r)
